@@ -66,6 +66,18 @@ func H_C20_j2x() {
 		vAssert(err == nil && string(x) == string(want) && string(raw) == string(wraw), "j2x: JsonReaderToXml equals NewMapJsonReaderRaw then Xml")
 		w := &vWriter{}
 		vAssert(JsonReaderToXmlWriter(bytes.NewReader(j), w) == nil && string(w.buf) == string(want), "j2x: JsonReaderToXmlWriter writes the same XML")
+		// a stream of two documents: one document per call, then io.EOF
+		second := []byte("{\"z\":\"2\"}")
+		rd := bytes.NewReader(append(append([]byte{}, j...), second...))
+		w1, w2, w3 := &vWriter{}, &vWriter{}, &vWriter{}
+		e1 := JsonReaderToXmlWriter(rd, w1)
+		e2 := JsonReaderToXmlWriter(rd, w2)
+		e3 := JsonReaderToXmlWriter(rd, w3)
+		m2, _ := NewMapJson(second)
+		want2, _ := m2.Xml()
+		vAssert(e1 == nil && string(w1.buf) == string(want), "j2x: JsonReaderToXmlWriter converts the first document of a stream")
+		vAssert(e2 == nil && string(w2.buf) == string(want2), "j2x: the next call converts the next document")
+		vAssert(e3 != nil && len(w3.buf) == 0, "j2x: at the end of the stream an error is returned and nothing is written")
 	case 4:
 		got, err := JsonPathsForKey(j, key)
 		want := core.PathsForKey(key)
